@@ -3,7 +3,7 @@
 # and passes without it. Usage: confirm_seed.sh <Cxx> <k> [patchfile]   (artifacts in /tmp/seed/<Cxx>/_seed)
 set -u
 ID=$1; K=$2
-S=/tmp/seed/$ID/_seed
+S=${SEEDSRC:-/tmp/seed}/$ID/_seed
 PATCH=${3:-$S/patch$K.diff}
 DEMO=$S/demo${K}_test.go
 export GOFLAGS=-mod=mod GOPROXY=off GOSUMDB=off GOTOOLCHAIN=local
